@@ -18,8 +18,8 @@ def running():
     out = subprocess.run(["ps", "-eo", "args"], stdout=subprocess.PIPE, text=True).stdout
     used, pids = 0, set()
     for l in out.splitlines():
-        m = re.search(r"python3? \S*tools/mutsweep\.py (C\d\d)(.*)", l)
-        if not m or l.lstrip().startswith("sh -c"):
+        m = re.match(r"\S*python3? \S*tools/mutsweep\.py (C\d\d)(.*)", l.strip())   # the interpreter itself, not a shell wrapper
+        if not m:
             continue
         pids.add(m.group(1))
         j = re.search(r"--jobs (\d+)", m.group(2))
